@@ -286,6 +286,39 @@ def check_index(system):
     return bad
 
 
+def check_incremental(system):
+    """The log pass built record by record through the public LogPass.addType01Data, with the frame count asked for after
+    every record (an indexer reporting progress): the count is the number of frames added so far, and the finished pass
+    loads exactly like the one the file indexer built."""
+    from TotalDepth.LIS.core import LogPass, LogiRec
+    bad = []
+    fr = system.fr
+    for k, p in enumerate(system.pass_list):
+        spec, model = p['spec'], p['model']
+        dfsr_rec = [ri for t, ri, _n in system.entries if t == 64][k]
+        try:
+            fr.seekLr(system.lay.records[dfsr_rec]['start'])
+            lp = LogPass.LogPass(LogiRec.LrDFSRRead(fr), fr.fileId)
+            done = 0
+            for ri, fs in zip(p['data_recs'], model['rec_frames']):
+                lr_len = sum(pr[4] for pr in system.lay.records[ri]['prs']) - 2
+                lp.addType01Data(system.lay.records[ri]['start'], spec.get('dtype', 0), lr_len, float(x_of(spec, fs[0])))
+                done += len(fs)
+                if lp.totalFrames != done:
+                    bad.append(({'kind': 'incremental_total_frames'}, 'pass %d: after %d records of %r frames totalFrames=%r, %d added'
+                                % (k, len([1 for x in model['rec_frames'] if x[0] <= fs[0]]), [len(x) for x in model['rec_frames']], lp.totalFrames, done)))
+                    return bad
+            lp.setFrameSet(fr, None, None)
+            got = np.asarray(lp.frameSet.frames)
+            exp = model_submatrix(spec, model, list(range(spec['n'])), list(range(len(spec['channels']))))
+            if got.shape != exp.shape or got.tobytes() != exp.tobytes():
+                bad.append(({'kind': 'incremental_load'}, 'pass %d built record by record loads a matrix of shape %r that differs from the recorded one %r'
+                            % (k, got.shape, exp.shape)))
+        except Exception as err:  # noqa
+            bad.append(({'kind': 'incremental_raises', 'exc': type(err).__name__}, 'pass %d built record by record: %s: %s' % (k, type(err).__name__, err)))
+    return bad
+
+
 def model_submatrix(spec, model, frames, chs):
     rows = []
     for f in frames:
@@ -666,6 +699,9 @@ def run_ops(items, layout, ops, res, shape):
         return
     for sig, msg in check_index(system):
         res.violate(sig, dict(base, history=[]), msg)
+    if shape in ('P', 'S', 'D'):
+        for sig, msg in check_incremental(System(items, layout)):
+            res.violate(sig, dict(base, history=[], incremental=1), msg)
     res.count('files_' + shape)
     first = True
     for op in ops:
@@ -719,7 +755,9 @@ def replay(case):
         s0 = System(items, layout)
     except Exception as err:  # noqa
         return [{'sig': {'kind': 'index_raises', 'exc': type(err).__name__}, 'case': case, 'msg': str(err)}]
-    if not case.get('history'):
+    if case.get('incremental'):
+        bad += check_incremental(s0)
+    elif not case.get('history'):
         bad += check_index(s0)
     bad += bfs.replay_history(lambda: System(items, layout), step, case.get('history', []))
     return [{'sig': s, 'case': case, 'msg': m} for s, m in bad]
